@@ -28,7 +28,11 @@ KNOWN_CLASSES = ['root', 'namespace', 'interface', 'component', 'system', 'forei
                  'subint', 'extern', 'import', 'file-name', 'scope_name', 'events', 'event',
                  'signature', 'formals', 'formal', 'types', 'fields', 'range', 'data', 'ports',
                  'port', 'instances', 'instance', 'bindings', 'binding', 'end-point', 'comment']
-UNKNOWN_CLASSES = ['bogus', '', 'Root', 'interface ', 'behavior', 'function', 'name-space']
+# text that means something to a formatter (%-style, str.format, string.Template, logging)
+FORMAT_TEXTS = ['%', '%s', '%d items', 'coverage 100%', '%(name)s', '%%', '{}', '{0}', '{name}',
+                '{', '}', '$x', '${x}', '\\', '\\N{bogus}', '%r %r', '{0.__class__}']
+UNKNOWN_CLASSES = ['bogus', '', 'Root', 'interface ', 'behavior', 'function', 'name-space'] + \
+    FORMAT_TEXTS
 NONSTRING_TAGS = [None, 5, True, 1.5, ['root'], {}]
 RETYPE_VALUES = [None, 7, -1, 2.5, True, False, 'text', '', [], [1, 'a'], [[]], {},
                  {'<class>': 'bogus'}, {'<class>': 'scope_name', 'ids': ['q']}]
@@ -349,6 +353,13 @@ def fixed_documents() -> list:
             [None, 0, 1, -3, 2.5, 1e30, True, False, '', 'root', '{}', [], [1], [None],
              [[]], [{}], {}, {'a': 1}, {'<class>': None}, {'<class>': 'root'},
              {'<class>': 'Root'}, {'<class>': ['root']}, 2 ** 70]]
+    for text in FORMAT_TEXTS:
+        docs.append((f'unknown class {text!r}', root([{'<class>': text}])))
+        docs.append((f'unknown class {text!r} in a namespace',
+                     root([{'<class>': 'namespace', 'name': _sn('n'),
+                            'elements': [{'<class>': text}, text]}])))
+        docs.append((f'working directory {text!r}',
+                     {'<class>': 'root', 'elements': [], 'working-directory': text}))
     docs += [
         ('root without elements', {'<class>': 'root', 'working-directory': '/w'}),
         ('root without working-directory', {'<class>': 'root', 'elements': []}),
@@ -366,6 +377,9 @@ def fixed_documents() -> list:
         ('element class list', root([{'<class>': ['enum']}])),
         ('element class dict', root([{'<class>': {'<class>': 'enum'}}])),
         ('unknown class', root([{'<class>': 'bogus'}])),
+        ('formatter text as stray elements', root(list(FORMAT_TEXTS))),
+        ('formatter text as comment', root([], comment={'<class>': 'comment',
+                                                          'string': ' '.join(FORMAT_TEXTS)})),
         ('bare classes', root([{'<class>': c} for c in KNOWN_CLASSES])),
         ('namespace no name', root([{'<class>': 'namespace', 'elements': []}])),
         ('namespace no elements', root([{'<class>': 'namespace', 'name': _sn('n')}])),
@@ -462,14 +476,14 @@ class AcceptedOnRetry(Exception):
     """process() refused the document, and the same parser object asked again returned contents."""
 
 
-def run_parse(text: str, route: str, again: int = 0, repair: bool = False):
+def run_parse(text: str, route: str, again: int = 0, repair: bool = False, verbose=None):
     """Parse; with `again`, the same parser object is asked again after a refusal: a document that
     holds an invalid out event must be refused every time."""
     from dznpy.json_ast import DznJsonAst, DznJsonError  # pylint: disable=import-outside-toplevel
     from dznpy.scoping import NamespaceIdsTypeError      # pylint: disable=import-outside-toplevel
     data = text.encode('utf-8') if route == 'bytes' else text
     with common.quiet():
-        inst = DznJsonAst(data, verbose=common.verbose_for(text))
+        inst = DznJsonAst(data, verbose=common.verbose_for(text) if verbose is None else verbose)
         try:
             return inst.process()
         except (DznJsonError, NamespaceIdsTypeError) as first:
@@ -532,7 +546,9 @@ def judge(text: str, route: str, doc, case: dict, mutations: list, ns_depth=None
     if repair:
         counts['refused_documents_mended_in_place_then_reparsed'] = 1
     try:
-        got = run_parse(text, route, again, repair)
+        if case.get('verbose') is not None:
+            counts[f'parsed_with_verbose_{bool(case["verbose"])}'] = 1
+        got = run_parse(text, route, again, repair, case.get('verbose'))
     except AcceptedOnRetry as exc:
         counts['retries_on_same_parser'] = 1
         flags = refusal_flags(doc)
@@ -698,11 +714,13 @@ def _worker(item):
         out.append((case, _slim(eval_case(case), item[1] in (200, 500))))
     elif what == 'fixed':
         for idx, (label, value) in enumerate(fixed_documents()):
-            case = {'doc': value, 'mutations': [f'hand-made: {label}'], 'kinds': ['fixed'],
-                    'route': 'bytes' if idx % 2 else 'str'}
-            res = eval_case(case)
-            res['counts']['fixed_documents'] = 1
-            out.append(({'fixed': label}, _slim(res, idx < 1)))
+            # quiet and talkative: what a parser prints about a document is not an outcome
+            for verbose in (False, True):
+                case = {'doc': value, 'mutations': [f'hand-made: {label}'], 'kinds': ['fixed'],
+                        'route': 'bytes' if idx % 2 else 'str', 'verbose': verbose}
+                res = eval_case(case)
+                res['counts']['fixed_documents'] = 1
+                out.append(({'fixed': label, 'verbose': verbose}, _slim(res, idx < 1)))
     else:
         _w, seed, group = item
         cases = build_group(seed, group)
@@ -728,7 +746,8 @@ def main(tier: str) -> int:
     items += [('group', run.seed, g) for g in range(groups)]
     run.require('outcome_returned', 'outcome_DznJsonError', 'outcome_NamespaceIdsTypeError',
                 'outevent_refusals_checked', 'canary_depths_checked', 'base_parsed',
-                'fixed_documents', 'refused_documents_mended_in_place_then_reparsed')
+                'fixed_documents', 'parsed_with_verbose_True', 'parsed_with_verbose_False',
+                'refused_documents_mended_in_place_then_reparsed')
     for _item, out in run.pmap(_worker, items, chunksize=4 if tier == 'quick' else 25):
         if isinstance(out, dict):          # harness error of a whole work item
             common.absorb(run, {}, out)
